@@ -94,8 +94,19 @@ def h_for_each(em, name, r, args, n, rvalue):
     if name != 'for_each' or len(args) != 3: return None
     first, last, lam = args
     cont = em.find_container_in(first); ct = em.container_type(first)
-    if cont is None or ct is None: raise Unsupported('for_each over unknown container at ' + em.where(n))
-    em.require_full_range(first, last, n)
+    start = '0'
+    if ct is None and em.skip(first).get('kind') == 'CXXOperatorCallExpr':
+        # std::for_each(begin(c) + k, end(c), ...): iterators are indices, the loop starts at k
+        ct = em.find_container_type_in(first)
+        if cont is None or ct is None or em.has_side_effects(first): raise Unsupported('for_each over unknown container at ' + em.where(n))
+        lc = em.skip(last)
+        try: lname = em.callee_decl(lc)[1].get('name') if lc.get('kind') in ('CallExpr', 'CXXMemberCallExpr') else None
+        except Unsupported: lname = None
+        if lname not in ('end', 'cend') or em.find_container_in(last) != cont: raise Unsupported('algorithm over a sub-range at ' + em.where(n))
+        start = em.expr(first); em.rules['std::for_each-from-offset'] += 1
+    else:
+        if cont is None or ct is None: raise Unsupported('for_each over unknown container at ' + em.where(n))
+        em.require_full_range(first, last, n)
     op = lambda_call_op(em, lam)
     params = em.params_of(op)
     if len(params) != 1: raise Unsupported('for_each lambda with %d parameters' % len(params))
@@ -103,7 +114,7 @@ def h_for_each(em, name, r, args, n, rvalue):
     j = 'j_L%d_' % (em.loopn + 1)
     saved = em.pre; em.pre = []
     out = []
-    out.append('{ size_t %s; for (%s = 0; %s < %s.size; ++%s)' % (j, j, j, cont, j))
+    out.append('{ size_t %s; for (%s = %s; %s < %s.size; ++%s)' % (j, j, '(size_t)(%s)' % start if start != '0' else '0', j, cont, j))
     out.append(em.loop_marker())
     em.vars[params[0]['id']] = ('alias', '%s.data[%s]' % (cont, j))
     em.stmt(body, out, '  ')
